@@ -70,7 +70,7 @@ func (f *frame) callResolved(st *State, ins *ssa.Call, cc *ssa.CallCommon, fnv V
 	if callee.Blocks != nil && ex.prog.inRepo(callee) {
 		key := ex.prog.keyOf(callee)
 		con := ex.prog.contracts[key]
-		if con != nil && !con.Inline {
+		if con != nil && !con.Inline && !ex.initMode {
 			return f.callContract(st, ins, callee, con, args, free)
 		}
 		return f.inlineCall(st, ins, callee, args, free)
@@ -80,7 +80,22 @@ func (f *frame) callResolved(st *State, ins *ssa.Call, cc *ssa.CallCommon, fnv V
 		return m(f, st, ins, args)
 	}
 	ex.assumed["library function assumed total, panic-free, result unconstrained: "+name] = true
-	return f.havocResult(st, callee.Signature.Results(), sanitize(callee.Name()))
+	res := f.havocResult(st, callee.Signature.Results(), sanitize(callee.Name()))
+	if nonNilFns[name] {
+		if r, ok := res.(VRef); ok {
+			// a library constructor returns a new object
+			st.assume(tLe("0", ex.heapTop()))
+			st.assume(tLt(ex.heapTop(), r.T))
+			for _, o := range st.fresh {
+				st.assume(tNe(r.T, o))
+			}
+			st.fresh = append(st.fresh, r.T)
+		}
+		if r, ok := res.(VOpaque); ok {
+			st.assume(tLt("0", r.T))
+		}
+	}
+	return res
 }
 
 // dynamicCall: call through a function value of unknown identity. Functions of the Detector
@@ -116,6 +131,9 @@ func (f *frame) dynamicCall(st *State, ins *ssa.Call, cc *ssa.CallCommon, fnv Va
 	ex.assumed["dynamic call assumed total and panic-free: "+sig.String()] = true
 	return f.havocResult(st, sig.Results(), "dyn")
 }
+
+var nonNilFns = map[string]bool{"encoding/csv.NewReader": true, "bufio.NewReader": true, "encoding/xml.NewDecoder": true,
+	"golang.org/x/net/html.NewTokenizer": true, "bytes.NewReader": true}
 
 func isDetectorSig(sig *types.Signature) bool {
 	if sig.Params().Len() != 2 || sig.Results().Len() != 1 {
@@ -294,7 +312,7 @@ func (f *frame) mergeReturns(st *State, base int, rets []retPath, callee *ssa.Fu
 		}
 		merged := make([]T, len(first))
 		for ci := range first {
-			merged[ci] = ex.decls.fresh("Mm_"+rg.name, arrOf(sortsOf(elemTypeOfRegion(rg, orig))[ci]))
+			merged[ci] = ex.decls.fresh("Mm_"+rg.name, ex.sortOfTerm(first[ci]))
 			for pi, r := range rets {
 				st.assume(tImp(conds[pi], tEq(merged[ci], r.st.mem[rg][ci])))
 			}
@@ -320,7 +338,10 @@ func elemTypeOfRegion(r *Region, st *State) types.Type {
 }
 
 func (ex *Exec) sortOfHeapComp(key string, ci int) string {
-	return ex.prog.heapSorts[key][ci]
+	if s, ok := ex.prog.heapSorts[key]; ok {
+		return s[ci]
+	}
+	return ex.dynHeapSorts[key][ci]
 }
 
 // mergeVals joins alternative values under path conditions.
@@ -436,6 +457,9 @@ func (f *frame) builtin(st *State, ins *ssa.Call, b *ssa.Builtin, args []Val) Va
 		switch a := args[0].(type) {
 		case VSlice:
 			return VInt{a.Len}
+		}
+		if m, ok := args[0].(VMap); ok && !m.Unknown {
+			return VInt{num(int64(len(m.Keys)))}
 		}
 		ex.note("abstracted: len of map in " + f.key)
 		n := ex.decls.fresh("maplen", SInt)
@@ -702,7 +726,26 @@ func (f *frame) loopEntry(st *State, li *loopInfo, ls *LoopSpec) bool {
 	for _, t := range terms {
 		st.assume(t)
 	}
+	if ls != nil {
+		env := f.specEnvInv(st)
+		for _, c := range ls.Assumes {
+			st.assume(env.evalBool(c.E))
+			ex.assumed[fmt.Sprintf("loop assumption in %s loop %d: %s", f.key, li.ordinal, c.Src)] = true
+		}
+		if ls.Terminates != "" && len(variant) == 0 {
+			ex.assumed[fmt.Sprintf("termination of %s loop %d assumed: %s", f.key, li.ordinal, ls.Terminates)] = true
+			st.variants[li.header] = nil
+			return !st.dead
+		}
+	}
 	st.variants[li.header] = variant
+	snap := st.clone()
+	if st.heads == nil {
+		st.heads = map[int]*State{}
+	}
+	if !f.inlined {
+		st.heads[li.ordinal] = snap
+	}
 	if len(variant) == 0 && (ex.mode.Functional || ex.mode.Safety) {
 		f.ob(st, fmt.Sprintf("decreases.loop[%d]", li.ordinal), li.pos, "false", "loop has no variant (termination not shown)")
 	}
